@@ -322,6 +322,26 @@ impl Configs {
             Mode::Neither => std::env::remove_var("QASM3_PATH"),
         }
         let search: Option<Vec<PathBuf>> = if mode == Mode::Explicit { Some(dirs.clone()) } else { None };
+        // every configuration is preceded, in the same process, by a small analysis under a
+        // *different* environment (a decoy directory with other contents): resolution must
+        // depend on the current environment only, never on an earlier one
+        {
+            let saved = std::env::var_os("QASM3_PATH");
+            let decoy = tree.root.join("decoy");
+            let _ = std::fs::create_dir_all(&decoy);
+            for f in FILES {
+                let _ = std::fs::write(decoy.join(f), "int decoy_file = 99;\n");
+            }
+            std::env::set_var("QASM3_PATH", &decoy);
+            let _ = catch(|| {
+                let r = parse_source_string_with_path_search("include \"a.inc\";\ninclude \"b.inc\";\n", Some("warmup.qasm"), None::<&[PathBuf]>);
+                r.any_syntax_errors()
+            });
+            match saved {
+                Some(v) => std::env::set_var("QASM3_PATH", v),
+                None => std::env::remove_var("QASM3_PATH"),
+            }
+        }
         let main_path = tree.root.join("main.qasm");
         if file_entry && std::fs::write(&main_path, &main_text).is_err() {
             return;
